@@ -41,7 +41,7 @@ var targets = []target{
 	{dir: "internal/parser", files: []string{"chunk.go", "field.go", "field_parser.go", "parser.go"},
 		funcs: []string{"isNewlineChar", "NewlineIndex", "NextChunk", "trimFirstSpace", "getFieldName", "splitFunc",
 			"FieldParser.scanSegment", "FieldParser.doRemoveBOM", "FieldParser.Next", "FieldParser.Reset", "FieldParser.RemoveBOM",
-			"FieldParser.KeepComments", "FieldParser.Started", "FieldParser.Err"},
+			"FieldParser.KeepComments", "FieldParser.Started", "FieldParser.Err", "NewFieldParser"},
 		out: "Parser"},
 	{dir: ".", files: []string{"message.go", "replay.go"}, funcs: []string{"isSingleLine", "topicsIntersect",
 		"queue.enqueue", "queue.dequeue", "queue.resize"}, out: "Root"},
@@ -58,6 +58,8 @@ var targets = []target{
 		funcs: []string{"must", "ID", "Message.Clone", "ensureID", "queue.each", "messageWithTopics.ID", "findIDInQueue",
 			"NewFiniteReplayer", "FiniteReplayer.Put", "FiniteReplayer.Replay",
 			"ValidReplayer.shouldGC", "ValidReplayer.doGC", "ValidReplayer.GC", "ValidReplayer.Put", "ValidReplayer.Replay"}, out: "Replay", joins: true},
+	// decoding one event from its wire form
+	{dir: ".", files: []string{"message.go", "message_fields.go"}, funcs: []string{"Message.reset", "Message.UnmarshalText"}, out: "Unmarshal", joins: true},
 }
 
 func die(pos token.Position, format string, a ...any) {
@@ -98,7 +100,16 @@ type tr struct {
 	dicts          []dictParam           // method dictionaries of the current generic function's type parameters
 	inClosure      bool
 	joins          bool
+	breakables     []breakable       // innermost last: what an unlabelled break leaves
+	labels         map[string]*loopCtx // labelled loops
+	pendingLabel   string
 	rebound        map[*types.Var]bool // pointer parameters assigned as a whole: plain inputs, not in/out
+}
+
+// breakable: a loop or a switch
+type breakable struct {
+	lc *loopCtx // a loop …
+	k  *kont    // … or a switch: the code after it
 }
 
 // dictParam: a method the constraint of a type parameter demands, passed as a function
@@ -210,7 +221,7 @@ func (t *tr) leanType(ty types.Type, at ast.Node) string {
 		return t.leanType(u.Underlying(), at)
 	case *types.Basic:
 		switch u.Kind() {
-		case types.Int, types.Int64, types.UntypedInt:
+		case types.Int, types.Int64, types.Int32, types.UntypedInt:
 			return "Int"
 		case types.Uint8, types.UntypedRune:
 			return "UInt8"
@@ -501,6 +512,25 @@ func (t *tr) expr(e *em, x ast.Expr) string {
 		case token.SUB:
 			return "(-" + t.expr(e, v.X) + ")"
 		case token.AND:
+			// &E{…} where *E is an error: identified by its type name and, if it has one, the text of its Reason
+			if cl, ok := v.X.(*ast.CompositeLit); ok {
+				if n, ok := t.info.Types[cl].Type.(*types.Named); ok {
+					if m, _, _ := types.LookupFieldOrMethod(types.NewPointer(n), true, t.pkg, "Error"); m != nil {
+						if _, isFn := m.(*types.Func); isFn {
+							reason := "none"
+							for _, el := range cl.Elts {
+								if kv, ok := el.(*ast.KeyValueExpr); ok {
+									val := t.expr(e, kv.Value) // evaluated for its checks
+									if kv.Key.(*ast.Ident).Name == "Reason" {
+										reason = val
+									}
+								}
+							}
+							return fmt.Sprintf("(errStruct %q %s)", n.Obj().Name(), reason)
+						}
+					}
+				}
+			}
 			// &T{…}: the value; &place (an argument handed in and back): the place's value
 			return t.expr(e, v.X)
 		}
@@ -559,6 +589,9 @@ func (t *tr) expr(e *em, x ast.Expr) string {
 			}
 		case token.MUL:
 			if lt == "Int" {
+				if b, ok := t.info.Types[v.X].Type.Underlying().(*types.Basic); ok && b.Kind() == types.Int64 {
+					return "(wrapInt64 (" + l + " * " + r + "))" // int64 (time.Duration): two's complement wrap-around
+				}
 				return "(" + l + " * " + r + ")"
 			}
 		case token.REM:
@@ -758,6 +791,38 @@ func (t *tr) call(e *em, v *ast.CallExpr) string {
 		// base 10, 64 bits only
 		if len(v.Args) == 3 && t.isConstInt(v.Args[1], 10) && t.isConstInt(v.Args[2], 64) {
 			return "(strconvParseUint " + t.expr(e, v.Args[0]) + ")"
+		}
+	case "strconv.ParseInt":
+		if len(v.Args) == 3 && t.isConstInt(v.Args[1], 10) && t.isConstInt(v.Args[2], 64) {
+			return "(strconvParseInt " + t.expr(e, v.Args[0]) + ")"
+		}
+	case "utf8.DecodeRuneInString":
+		// (its result is only ever used inside error texts, which are not modelled)
+		return "(utf8DecodeRuneApprox " + t.expr(e, v.Args[0]) + ")"
+	case "strings.IndexFunc":
+		// strings.IndexFunc(s, func(r rune) bool { return r < A || r > B }) with ASCII constants A ≤ B: the first byte outside
+		// [A, B] (a multi-byte or invalid sequence starts with a byte ≥ 0x80 > B and decodes to a rune > B)
+		if len(v.Args) == 2 {
+			if fl, ok := v.Args[1].(*ast.FuncLit); ok && len(fl.Type.Params.List) == 1 && len(fl.Type.Params.List[0].Names) == 1 && len(fl.Body.List) == 1 {
+				rn := fl.Type.Params.List[0].Names[0].Name
+				if ret, ok := fl.Body.List[0].(*ast.ReturnStmt); ok && len(ret.Results) == 1 {
+					if or, ok := ret.Results[0].(*ast.BinaryExpr); ok && or.Op == token.LOR {
+						lo, ok1 := or.X.(*ast.BinaryExpr)
+						hi, ok2 := or.Y.(*ast.BinaryExpr)
+						if ok1 && ok2 && lo.Op == token.LSS && hi.Op == token.GTR && types.ExprString(lo.X) == rn && types.ExprString(hi.X) == rn {
+							a, oka := t.info.Types[lo.Y]
+							b, okb := t.info.Types[hi.Y]
+							if oka && okb && a.Value != nil && b.Value != nil {
+								av, _ := constant.Int64Val(a.Value)
+								bv, _ := constant.Int64Val(b.Value)
+								if 0 <= av && av <= bv && bv < 128 {
+									return fmt.Sprintf("(stringsIndexOutside %s %d %d)", t.expr(e, v.Args[0]), av, bv)
+								}
+							}
+						}
+					}
+				}
+			}
 		}
 	case "strconv.FormatUint":
 		if len(v.Args) == 2 && t.isConstInt(v.Args[1], 10) {
@@ -1334,9 +1399,11 @@ type kont struct {
 	loop *loopCtx // fall-through = end of a loop body: post statement, then Step.next
 	fin  bool     // fall-through = end of the function
 	join string   // fall-through = call of a join point (the continuation, emitted as a definition of its own)
+	bdepth int    // how many loops / switches enclose the continuation's statements
 }
 
 type loopCtx struct {
+	label string
 	state []*types.Var
 	post  ast.Stmt
 	hid   string // hidden index variable of a range loop
@@ -1392,7 +1459,12 @@ func (t *tr) fall(e *em, k *kont, lc *loopCtx) {
 	case k.join != "":
 		e.line("%s", k.join)
 	case len(k.rest) > 0:
+		saved := t.breakables
+		if k.bdepth < len(saved) {
+			t.breakables = saved[:k.bdepth] // the continuation lies outside the switches it is reached from
+		}
 		t.stmts(e, k.rest, k.up, lc)
+		t.breakables = saved
 	case k.up != nil:
 		t.fall(e, k.up, lc)
 	case k.loop != nil:
@@ -1437,9 +1509,9 @@ func (t *tr) assignTo(e *em, lhs ast.Expr, val string, define bool) {
 	case *ast.SelectorExpr:
 		// field of an in/out struct: functional update
 		base, ok := l.X.(*ast.Ident)
-		if !ok {
-			// x.a.b = v: x.a is replaced by itself with b updated
-			if sl, ok := t.info.Selections[l]; !ok || len(sl.Index()) > 1 || t.isOptPtr(l.X) {
+		if sl, okSel := t.info.Selections[l]; !ok || (okSel && len(sl.Index()) > 1) {
+			// x.a.b = v: x.a is replaced by itself with b updated; a promoted field goes through the embedded structs
+			if !okSel || t.isOptPtr(l.X) {
 				die(t.pos(lhs), "assignment to %s", types.ExprString(lhs))
 			}
 			inner := &em{}
@@ -1447,11 +1519,21 @@ func (t *tr) assignTo(e *em, lhs ast.Expr, val string, define bool) {
 			if inner.sb.Len() > 0 {
 				die(t.pos(lhs), "assignment to %s", types.ExprString(lhs))
 			}
-			t.assignTo(e, l.X, fmt.Sprintf("{ %s with %s := %s }", cur, fieldName(l.Sel.Name), val), false)
+			chain := strings.Split(strings.TrimPrefix(t.embedPath(sl), "."), ".")
+			if chain[0] == "" {
+				chain = nil
+			}
+			chain = append(chain, fieldName(l.Sel.Name))
+			v := val
+			for i := len(chain) - 1; i >= 0; i-- {
+				prefix := cur
+				for _, c := range chain[:i] {
+					prefix = "(" + prefix + ")." + c
+				}
+				v = fmt.Sprintf("{ %s with %s := %s }", prefix, chain[i], v)
+			}
+			t.assignTo(e, l.X, v, false)
 			return
-		}
-		if sl, ok := t.info.Selections[l]; ok && len(sl.Index()) > 1 {
-			die(t.pos(lhs), "assignment to the promoted field %s", types.ExprString(lhs))
 		}
 		o := t.info.Uses[base]
 		n := t.nameOf(o)
@@ -1486,6 +1568,13 @@ func (t *tr) assignTo(e *em, lhs ast.Expr, val string, define bool) {
 // optExpr translates x for a destination that is an Option (a slice that may be nil) or not
 func (t *tr) optExpr(e *em, x ast.Expr, wantOpt bool) string {
 	if !wantOpt {
+		if id, ok := x.(*ast.Ident); ok && id.Name == "nil" {
+			if tv, ok := t.info.Types[x]; ok {
+				if _, isSlice := tv.Type.Underlying().(*types.Slice); isSlice {
+					return "[]" // a nil slice where nil is not told apart from empty
+				}
+			}
+		}
 		if id, ok := x.(*ast.Ident); ok {
 			if o, ok := t.info.Uses[id].(*types.Var); ok && t.nilable[o] {
 				if _, isPtr := o.Type().(*types.Pointer); isPtr {
@@ -1562,6 +1651,14 @@ func (t *tr) simple(e *em, s ast.Stmt) {
 			}
 			vals := make([]string, len(v.Rhs))
 			for i, r := range v.Rhs {
+				if id, ok := r.(*ast.Ident); ok && id.Name == "nil" && !t.isNilableTarget(v.Lhs[i]) {
+					if tv, ok := t.info.Types[v.Lhs[i]]; ok {
+						if _, isSlice := tv.Type.Underlying().(*types.Slice); isSlice {
+							vals[i] = "[]" // a nil slice where nil is not told apart from empty
+							continue
+						}
+					}
+				}
 				vals[i] = t.optExpr(e, r, t.isNilableTarget(v.Lhs[i]))
 			}
 			if len(vals) > 1 {
@@ -1736,7 +1833,7 @@ func (t *tr) stmts(e *em, list []ast.Stmt, up *kont, lc *loopCtx) {
 		return
 	}
 	s, rest := list[0], list[1:]
-	k := &kont{rest: rest, up: up}
+	k := &kont{rest: rest, up: up, bdepth: len(t.breakables)}
 	switch v := s.(type) {
 	case *ast.ReturnStmt:
 		var vals []string
@@ -1763,17 +1860,39 @@ func (t *tr) stmts(e *em, list []ast.Stmt, up *kont, lc *loopCtx) {
 		}
 		t.emitReturn(e, lc, vals)
 	case *ast.BranchStmt:
-		if v.Label != nil || lc == nil {
-			die(t.pos(s), "branch %s", v.Tok)
+		if v.Label != nil {
+			// a labelled break of the innermost enclosing loop
+			if v.Tok != token.BREAK || lc == nil || lc.label != v.Label.Name {
+				die(t.pos(s), "branch %s %s", v.Tok, v.Label.Name)
+			}
+			e.line("pure (Step.brk %s)", t.stateTuple(lc))
+			return
 		}
 		switch v.Tok {
 		case token.BREAK:
+			if n := len(t.breakables); n > 0 && t.breakables[n-1].k != nil {
+				// leaves the switch: on with the code after it
+				t.fall(e, t.breakables[n-1].k, lc)
+				return
+			}
+			if lc == nil {
+				die(t.pos(s), "branch %s", v.Tok)
+			}
 			e.line("pure (Step.brk %s)", t.stateTuple(lc))
 		case token.CONTINUE:
+			if lc == nil {
+				die(t.pos(s), "branch %s", v.Tok)
+			}
 			t.fall(e, &kont{loop: lc}, lc)
 		default:
 			die(t.pos(s), "branch %s", v.Tok)
 		}
+	case *ast.LabeledStmt:
+		if _, ok := v.Stmt.(*ast.ForStmt); !ok {
+			die(t.pos(s), "label on something other than a for loop")
+		}
+		t.pendingLabel = v.Label.Name
+		t.stmts(e, append([]ast.Stmt{v.Stmt}, rest...), up, lc)
 	case *ast.BlockStmt:
 		t.stmts(e, v.List, k, lc)
 	case *ast.IfStmt:
@@ -1812,7 +1931,7 @@ func (t *tr) stmts(e *em, list []ast.Stmt, up *kont, lc *loopCtx) {
 		for _, c := range v.Body.List {
 			cc := c.(*ast.CaseClause)
 			ast.Inspect(cc, func(m ast.Node) bool {
-				if b, ok := m.(*ast.BranchStmt); ok && (b.Tok == token.BREAK || b.Tok == token.FALLTHROUGH) {
+				if b, ok := m.(*ast.BranchStmt); ok && b.Tok == token.FALLTHROUGH {
 					die(t.pos(b), "%s inside switch", b.Tok)
 				}
 				return true
@@ -1823,6 +1942,8 @@ func (t *tr) stmts(e *em, list []ast.Stmt, up *kont, lc *loopCtx) {
 				clauses = append(clauses, cc)
 			}
 		}
+		t.breakables = append(t.breakables, breakable{k: k})
+		defer func() { t.breakables = t.breakables[:len(t.breakables)-1] }()
 		depth := 0
 		for _, cc := range clauses {
 			var conds []string
@@ -1847,8 +1968,13 @@ func (t *tr) stmts(e *em, list []ast.Stmt, up *kont, lc *loopCtx) {
 		if v.Init != nil {
 			t.simple(e, v.Init)
 		}
-		inner := &loopCtx{post: v.Post, outer: lc}
-		inner.state = t.assigned(&ast.BlockStmt{Lbrace: v.Body.Lbrace, List: append(append([]ast.Stmt{}, v.Body.List...), postList(v.Post)...), Rbrace: v.Body.Rbrace})
+		inner := &loopCtx{post: v.Post, outer: lc, label: t.pendingLabel}
+		t.pendingLabel = ""
+		stateOf := append(append([]ast.Stmt{}, v.Body.List...), postList(v.Post)...)
+		if v.Cond != nil {
+			stateOf = append(stateOf, &ast.ExprStmt{X: v.Cond}) // a condition with a call may change its receiver and pointer arguments
+		}
+		inner.state = t.assigned(&ast.BlockStmt{Lbrace: v.Body.Lbrace, List: stateOf, Rbrace: v.Body.Rbrace})
 		t.loop(e, inner, v.Cond, nil, v.Body, k, lc)
 	case *ast.RangeStmt:
 		if v.Key != nil && v.Value != nil {
@@ -2190,7 +2316,9 @@ func (t *tr) loop(e *em, inner *loopCtx, cond ast.Expr, rng *ast.RangeStmt, body
 		b.line("if %s then do", c)
 		b.ind++
 	}
+	t.breakables = append(t.breakables, breakable{lc: inner})
 	t.stmts(b, body.List, &kont{loop: inner}, inner)
+	t.breakables = t.breakables[:len(t.breakables)-1]
 	if rng != nil || cond != nil {
 		b.ind--
 		b.line("else do")
